@@ -136,6 +136,83 @@ Proof. vm_compute. reflexivity. Qed.
 Lemma gen_not_wf_strict : wf true gen_system = false.
 Proof. vm_compute. reflexivity. Qed.
 
+(* ---------------------------------------------------------------- round 2: which unlocked writes can tear a served snapshot? *)
+(* bookkeeping = single scalar stores that reb_simulation_integrate overwrites on entry anyway (status, dt sign, dt_last_done;
+   all three are persisted: descriptors 11, 3, 145) and the message buffer (not persisted) *)
+Definition bookkeeping : list string :=
+  ["field:status"; "field:dt"; "field:dt_last_done"; "reb_simulation_warning"; "reb_simulation_error_message_waiting";
+   "reb_particle_check_testparticles"].
+Definition is_bk (l : string) : bool := existsb (String.eqb l) bookkeeping.
+(* the same program with the bookkeeping stores not counted as simulation writes *)
+Definition relabel (b : list act) : list act :=
+  map (fun x => match x with
+                | AWriteBegin l => if is_bk l then ALocal l else x
+                | AWriteEnd l => if is_bk l then ALocal l else x
+                | _ => x end) b.
+Definition core_system (pro : list act) : bool -> prog :=
+  system (relabel pro) (map relabel integ_loop_heads) (relabel integ_loop_body) (relabel integ_epilogue)
+         (map (fun h => relabel (snd h)) handlers).
+
+(* besides bookkeeping, exactly one write is still outside the mutex: the user heartbeat called once in the prologue of
+   reb_simulation_integrate *)
+Lemma gen_core_unlocked_writes :
+  unlocked_writes (relabel integ_prologue) = ["reb_run_heartbeat"] /\
+  concat (map (fun b => unlocked_writes (relabel b)) integ_loop_heads) = [] /\
+  unlocked_writes (relabel integ_loop_body) = [] /\ unlocked_writes (relabel integ_epilogue) = [] /\
+  concat (map (fun h => unlocked_writes (relabel (snd h))) handlers) = [].
+Proof. vm_compute. repeat split. Qed.
+
+(* hence "a served snapshot equals a boundary state except in {status, dt sign, dt_last_done}" is false as long as the prologue
+   heartbeat may write: witness = the serialisation overlaps the prologue heartbeat *)
+Definition pos_after_label (l : string) (b : list act) : nat :=
+  (fix go (b : list act) (i : nat) := match b with
+     | [] => i
+     | AWriteBegin l' :: r => if String.eqb l l' then S i else go r (S i)
+     | _ :: r => go r (S i) end) b 0.
+Definition torn_schedule_prologue : list (bool * nat) :=
+  repeat (true, 0) (pos_after_label "reb_run_heartbeat" integ_prologue) ++
+  [(false, index_of_handler "/simulation")] ++ repeat (false, 0) (pos_after simulation_handler).
+Lemma gen_core_quiescent_refuted :
+  wf true (core_system integ_prologue) = false /\
+  exists s, reach (core_system integ_prologue) s /\ gz (tS s) = true /\ integ_writing s = true /\ pcb (tI s) = 0.
+Proof.
+  split; [vm_compute; reflexivity|].
+  destruct (runs (core_system integ_prologue) torn_schedule_prologue init) as [s|] eqn:E; [|vm_compute in E; discriminate].
+  exists s. split; [eapply runs_reach; [apply reach_init | exact E]|].
+  vm_compute in E. inversion E. vm_compute. repeat split.
+Qed.
+
+(* with the prologue inside the mutex (proposed patch /tmp/c19_prologue_mutex_patch.diff) the statement holds for ALL interleavings:
+   while a request is serialised, no step and no write other than bookkeeping is in progress *)
+Definition prologue_locked : list act := locked (strip_sync integ_prologue).
+Lemma core_patched_wf : wf true (core_system prologue_locked) = true.
+Proof. vm_compute. reflexivity. Qed.
+Lemma core_patched_quiescent : forall s, reach (core_system prologue_locked) s ->
+  gz (tS s) = true -> integ_writing s = false /\ gst (tI s) = false.
+Proof. intros s R H. exact (served_quiescent_gen _ s core_patched_wf R H). Qed.
+
+(* ---------------------------------------------------------------- round 2: the other stepping entry point *)
+(* a user thread that calls reb_simulation_steps (sim.steps(n)) instead of reb_simulation_integrate *)
+Definition steps_system : bool -> prog :=
+  fun w => if w then mkProg [steps_loop_body] (fun _ => [0]) else server_prog (map snd handlers).
+Lemma gen_steps_refuted :
+  wf false steps_system = false /\
+  exists s, reach steps_system s /\ serializing s = true /\ in_step s = true.
+Proof.
+  split; [vm_compute; reflexivity|].
+  pose (sch := ((true, 0) :: (false, index_of_handler "/simulation") :: repeat (false, 0) (pos_after simulation_handler))).
+  destruct (runs steps_system sch init) as [s|] eqn:E; [|vm_compute in E; discriminate].
+  exists s. split; [eapply runs_reach; [apply reach_init | exact E]|].
+  vm_compute in E. inversion E. vm_compute. split; reflexivity.
+Qed.
+(* with the loop body of reb_simulation_steps inside the mutex (proposed patch /tmp/c19_steps_mutex_patch.diff) the theorem holds *)
+Definition steps_system_patched : bool -> prog :=
+  fun w => if w then mkProg [locked steps_loop_body] (fun _ => [0]) else server_prog (map snd handlers).
+Lemma steps_patched_wf : wf false steps_system_patched = true.
+Proof. vm_compute. reflexivity. Qed.
+Lemma steps_patched_at_boundary : forall s, reach steps_system_patched s -> serializing s = true -> in_step s = false.
+Proof. intros s R H. exact (served_at_boundary_gen _ s steps_patched_wf R H). Qed.
+
 (* process-level hygiene of the server thread: no exit of the request loop closes a connection descriptor twice
    (fclose(fdopen(fd)) followed by close(fd) would close a descriptor that another thread may have just opened; fixed in /repo bc586ce) *)
 Lemma gen_server_single_close : server_double_close_sites = 0.
